@@ -140,7 +140,7 @@ PROPS = {
         "assumptions": ["wall-clock time and allocation are runtime behaviour: measured by the harness, not proved"],
     },
     "C08": {
-        "topics": ["fld"],
+        "topics": ["fld", "trk"],
         "nontrivial": lambda c, i: "(set" in c or ("(unpack" in c and i.startswith("ok")),
         "rule": FLD_MSG_RULE + "; non-trivial = distinct history that packs a value or accepts an encoding",
         "trusted_base": MODEL_TB,
